@@ -229,6 +229,9 @@ class NotLiteral(Exception):
     pass
 
 
+_TABLE_BUILDERS = {dict: ("update", "setdefault"), list: ("append", "extend", "insert"), set: ("add", "update")}
+
+
 _SAFE_FUNCS = {
     "tuple": tuple, "list": list, "dict": dict, "set": set, "frozenset": frozenset, "zip": zip,
     "enumerate": enumerate, "range": range, "len": len, "str": str, "int": int,
@@ -392,7 +395,12 @@ def fold(node, env: Optional[dict] = None, _depth=0):
                     raise NotLiteral(str(e))
             if fn is None:
                 raise NotLiteral(node.func.id)
-            args = [f(a) for a in node.args]
+            args = []
+            for a in node.args:
+                if isinstance(a, ast.Starred):
+                    args.extend(list(f(a.value)))   # f(*table)
+                else:
+                    args.append(f(a))
             kws = {k.arg: f(k.value) for k in node.keywords}
             try:
                 r = fn(*args, **kws)
@@ -581,6 +589,19 @@ def fold_module_tables(tree: ast.Module, seed_env: Optional[dict] = None) -> dic
                         run(s.body, env)
                 elif isinstance(s, ast.FunctionDef):
                     env[s.name] = FoldableFunction(s, env)
+                elif isinstance(s, ast.Expr) and isinstance(s.value, ast.Call) and isinstance(s.value.func, ast.Attribute) and isinstance(s.value.func.value, ast.Name) \
+                        and s.value.func.value.id in env and s.value.func.attr in _TABLE_BUILDERS.get(type(env[s.value.func.value.id]), ()):
+                    # a table completed in place: groups.update([...]), names.append(...)
+                    if s.value.keywords and s.value.func.attr != "update":
+                        raise NotLiteral("keywords")
+                    args = [list(v) if hasattr(v, "__next__") else v for v in (fold(a, env) for a in s.value.args)]
+                    kws = {k.arg: fold(k.value, env) for k in s.value.keywords}
+                    if None in kws:
+                        raise NotLiteral("**kw")
+                    try:
+                        getattr(env[s.value.func.value.id], s.value.func.attr)(*args, **kws)
+                    except Exception as e:
+                        raise NotLiteral(str(e))
             except NotLiteral:
                 # whatever this statement binds becomes unknown
                 for n in ast.walk(s):
